@@ -97,6 +97,7 @@ def main() -> int:
     secs = a.seconds or budget["seconds"]
     tmp = tempfile.mkdtemp(prefix=f"verif_{pid}_")
     procs = []
+    opt_shards: list = []
     n_fuzz = 0
     if a.tier == "thorough" and getattr(check, "ATHERIS", False) and not os.environ.get("VERIF_NO_ATHERIS"):
         n_fuzz = min(4, nsh // 4)  # coverage-guided shards (atheris) next to the Hypothesis shards
@@ -109,17 +110,31 @@ def main() -> int:
             cmd = [PY, "-m", "vlib.harness", pid, "--tier", a.tier, "--seed", str(seed), "--shard", str(i),
                    "--nshards", str(nsh), "--seconds", str(secs), "--out", out]
         env = dict(os.environ, PYTHONHASHSEED="0", PYTHONPATH=HERE)
-        procs.append((i, out, subprocess.Popen(cmd, cwd=HERE, env=env, stdout=subprocess.PIPE, stderr=subprocess.STDOUT)))
+        if i == nsh - n_fuzz - 1 and nsh >= 4 and not os.environ.get("VERIF_NO_PYTHON_O"):
+            # environment axis: one Hypothesis shard runs the interpreter with -O (asserts stripped, __debug__ False)
+            env["PYTHONOPTIMIZE"] = "1"
+            opt_shards.append(i)
+        # (output goes to a file: a pipe that nobody drains while the shards run would block a talkative shard)
+        logf = open(os.path.join(tmp, f"shard{i}.log"), "wb")
+        procs.append((i, out, subprocess.Popen(cmd, cwd=HERE, env=env, stdout=logf, stderr=subprocess.STDOUT)))
+        logf.close()
     reports = []
     harness_fail = []
     hard_limit = secs * 3 + 420
     for i, out, p in procs:
         try:
-            so, _ = p.communicate(timeout=max(10.0, hard_limit - (time.monotonic() - t0)))
+            p.wait(timeout=max(10.0, hard_limit - (time.monotonic() - t0)))
         except subprocess.TimeoutExpired:
             p.kill()
-            so, _ = p.communicate()
+            p.wait()
             harness_fail.append(f"shard {i} exceeded the hard limit")
+        try:
+            with open(os.path.join(tmp, f"shard{i}.log"), "rb") as lf:
+                lf.seek(0, 2)
+                lf.seek(max(0, lf.tell() - 4000))
+                so = lf.read()
+        except OSError:
+            so = b""
         if os.path.exists(out):
             reports.append(json.load(open(out)))
         else:
@@ -151,7 +166,7 @@ def main() -> int:
                 samples.append(s)
         for b, rec in r["failures"].items():
             if b not in failures or rec["size"] < failures[b]["size"]:
-                failures[b] = rec
+                failures[b] = dict(rec, python_O=bool(r.get("optimize")))
         for k, v in (r.get("phase_info") or {}).items():
             if isinstance(v, (int, float)) and not isinstance(v, bool):
                 phase_info[k] = phase_info.get(k, 0) + v
@@ -164,7 +179,8 @@ def main() -> int:
         name = "".join(c if c.isalnum() or c in "-_" else "_" for c in b)[:60]
         path = os.path.join(fail_dir, f"{name}-{harness.case_hash(rec['case'])}.json")
         json.dump({"property": pid, "bucket": b, "msg": rec["msg"], "key": rec.get("key"), "case": rec["case"],
-                   "detail": rec.get("detail"), "seed": seed, "tier": a.tier}, open(path, "w"), indent=1, default=str)
+                   "detail": rec.get("detail"), "seed": seed, "tier": a.tier, **({"python_O": True} if rec.get("python_O") else {})},
+                  open(path, "w"), indent=1, default=str)
         violations.append((b, os.path.relpath(path, HERE), rec["msg"]))
 
     for f in known["open"]:
@@ -193,6 +209,7 @@ def main() -> int:
                 "replayed_regression_cases": n_replayed,
                 "shards": nsh,
                 "atheris_shards": n_fuzz,
+                "python_O_shards": opt_shards,
                 "shard_seconds": secs,
                 "tawazi_src": os.environ.get("TAWAZI_SRC", "/repo"),
                 **({"exhaustive": True} if phase_info.get("exhaustive") else {}),
@@ -226,6 +243,9 @@ def main() -> int:
 
 def replay_one(check, pid, path) -> int:
     rec = json.load(open(path))
+    if isinstance(rec, dict) and rec.get("python_O") and not sys.flags.optimize:
+        # found by the shard that runs under python -O: replay it there
+        os.execve(PY, [PY, "-O"] + sys.argv, dict(os.environ, PYTHONHASHSEED="0"))
     case = rec["case"] if isinstance(rec, dict) and "case" in rec else rec
     from vlib import harness
 
